@@ -38,11 +38,53 @@ def _init(quiet):
 
 
 def _call(func, arg, limit_s):
-    faulthandler.dump_traceback_later(limit_s, exit=True)
-    try:
-        return func(arg)
-    finally:
-        faulthandler.cancel_dump_traceback_later()
+    """Run one job in a process of its own, forked from the pool worker (which never
+    runs a job itself and so stays as the parent left it): whatever a job leaves behind
+    in the interpreter - module globals, class attributes, default arguments, caches -
+    cannot reach another job, so a job's result does not depend on which jobs the pool
+    happened to give the same worker before.  Histories inside one interpreter are part
+    of a job's own plan instead."""
+    import pickle
+    import traceback
+
+    if os.environ.get("HSIM_NO_TASK_FORK"):
+        faulthandler.dump_traceback_later(limit_s, exit=True)
+        try:
+            return func(arg)
+        finally:
+            faulthandler.cancel_dump_traceback_later()
+    r, w = os.pipe()
+    sys.stdout.flush()
+    sys.stderr.flush()
+    pid = os.fork()
+    if pid == 0:
+        code = 1
+        try:
+            os.close(r)
+            faulthandler.dump_traceback_later(limit_s, exit=True)
+            try:
+                res = ("ok", func(arg))
+            except BaseException as e:  # noqa: BLE001
+                res = ("err", type(e).__name__, str(e), traceback.format_exc())
+            data = pickle.dumps(res)
+            with os.fdopen(w, "wb") as f:
+                f.write(data)
+            code = 0
+        finally:
+            os._exit(code)
+    os.close(w)
+    with os.fdopen(r, "rb") as f:
+        data = f.read()
+    _, status = os.waitpid(pid, 0)
+    if not data:
+        raise HarnessError(f"a simulation process died (wait status {status}; "
+                           f"watchdog {limit_s}s?)")
+    res = pickle.loads(data)
+    if res[0] == "err":
+        if res[1] == "HarnessError":
+            raise HarnessError(res[2])
+        raise RuntimeError(f"{res[1]}: {res[2]}\n{res[3]}")
+    return res[1]
 
 
 def nproc_default():
